@@ -24,6 +24,7 @@ def c18Race (args : List String) (impl : String) : String × String :=
     let predicted : Bool := match parts with
       | ["fq", a, b] => methodGuarded ("FeeQuote." ++ a) && methodGuarded ("FeeQuote." ++ b)
       | ["fqs", a, b] => methodGuarded ("FeeQuotes." ++ a) && methodGuarded ("FeeQuotes." ++ b)
+      | ["fqsq", a, b] => methodGuarded ("FeeQuotes." ++ a) && methodGuarded ("FeeQuote." ++ b)
       | ["engine"] => GoBT.Gen.Shared.engineFields == 0 && GoBT.Gen.Shared.writtenGlobals.isEmpty
       | ["scripts"] => GoBT.Gen.Shared.engineFields == 0 && GoBT.Gen.Shared.writtenGlobals.isEmpty
       | _ => false
